@@ -204,12 +204,15 @@ impl ImportCase {
     }
 }
 
-fn marker_id(path: &str) -> String {
-    format!("m{:08x}", hash_bytes(77, path.as_bytes()) as u32)
+/// The marker names the file by its path relative to the scratch root (whose
+/// own name contains a pid and must not influence anything observed).
+fn marker_id(path: &str, root: &str) -> String {
+    let rel = path.strip_prefix(root).unwrap_or(path);
+    format!("m{:08x}", hash_bytes(77, rel.as_bytes()) as u32)
 }
 
-fn marker_text(path: &str) -> Vec<u8> {
-    let id = marker_id(path);
+fn marker_text(path: &str, root: &str) -> Vec<u8> {
+    let id = marker_id(path, root);
     if path.ends_with(".sass") {
         format!(".{}\n  from: x\n", id).into_bytes()
     } else {
@@ -329,7 +332,7 @@ fn gen_case(rng: &mut Rng, root: &str) -> ImportCase {
                 // a .css partial as the only candidate: the statement is silent; never generated
                 if !existing.contains(&f) {
                     existing.insert(f.clone());
-                    files.push((f.clone(), marker_text(&f)));
+                    files.push((f.clone(), marker_text(&f, root)));
                 }
             }
         }
@@ -369,7 +372,7 @@ fn gen_plain_case(rng: &mut Rng, root: &str) -> ImportCase {
     for f in ["foo.css", "foo.scss", "_foo.scss", "bar.css", "foo.css.scss", "example.com/foo.scss"] {
         if rng.chance(0.6) {
             let p = join(root, f);
-            files.push((p.clone(), marker_text(&p)));
+            files.push((p.clone(), marker_text(&p, root)));
         }
     }
     job.files = files;
@@ -418,7 +421,7 @@ fn judge(case: &ImportCase, r: &JobResult, breaches: &[String]) -> Vec<(String, 
         _ => {}
     }
     let files: BTreeSet<String> = case.job.files.iter().map(|f| normalize(&case.job.cwd, &f.0)).collect();
-    let by_marker: BTreeMap<String, String> = files.iter().map(|p| (marker_id(p), p.clone())).collect();
+    let by_marker: BTreeMap<String, String> = files.iter().map(|p| (marker_id(p, &case.root), p.clone())).collect();
     let faulted_read = r.fs.iter().any(|e| e.faulted && e.op == FsOp::Read);
     let mut model = Model { files: &files, candidates: BTreeSet::new() };
     let mut allowed_reads: BTreeSet<String> = BTreeSet::new();
@@ -547,6 +550,8 @@ fn run_case(case: &ImportCase) -> (JobResult, Vec<String>) {
 impl Imports {
     fn one(&self, case: &ImportCase, res: &mut UnitResult) {
         let (r, breaches) = run_case(case);
+        res.fold_job_in(&r, &case.root);
+        res.fold(format!("{:?}", breaches).replace(&case.root, "$ROOT").as_bytes());
         res.bump("evaluations", 1);
         res.bump(&format!("directive.{}", case.directive), 1);
         res.bump(&format!("feature.{}", case.feature()), 1);
